@@ -40,6 +40,10 @@ Definition path_nodes (t : tree) (leaf : N) : res (list N) :=
 Definition copath_nodes (t : tree) (leaf : N) : res (list N) :=
   bind (direct_copath (2 * leaf) (total_leaf_count t)) (fun dp => ret (map CopathNode_copath dp)).
 
+Definition is_none {A} (o : option A) : bool := match o with None => true | Some _ => false end.
+Definition last_is_blank (t : tree) : bool :=
+  match rev t with None :: _ => true | _ => false end.
+
 (* next_empty_leaf: first blank even index >= 2*start, else the leaf after the last one *)
 Fixpoint next_empty_from (fuel : nat) (t : tree) (n : N) : N :=
   match fuel with
@@ -141,6 +145,11 @@ Fixpoint apply_adds (t : tree) (ids : list N) (start : N) (acc : list N) : tres 
   | [] => TOk (t, rev acc)
   | id :: rest => tbind (add_leaf t id start) (fun '(t1, idx) => apply_adds t1 rest idx (idx :: acc))
   end.
+
+(* the phases of TreeKemPublic::batch_edit in the order the model below applies them *)
+Inductive phase := PRemovesLastFirst | PUpdatesOut | PUpdatesIn | PBlankPaths | PStartZero | PAddsRunningStart | PTrim | PHashes.
+Definition batch_phases : list phase :=
+  [PRemovesLastFirst; PUpdatesOut; PUpdatesIn; PBlankPaths; PStartZero; PAddsRunningStart; PTrim; PHashes].
 
 Definition batch_edit (t : tree) (removes : list N) (updates : list (N * N)) (adds : list N) : tres (tree * list N) :=
   tbind (apply_removes t (rev removes)) (fun t1 =>
